@@ -8,7 +8,7 @@ use geo::{Contains, Coord, CoordinatePosition, Geometry, Intersects, MapCoords, 
 use serde_json::json;
 
 fn to_i64(g: &Geometry<f64>) -> Geometry<i64> {
-    g.map_coords(|c| Coord { x: c.x as i64, y: c.y as i64 })
+    map_geom_g(g, &|c| Coord { x: c.x as i64, y: c.y as i64 })
 }
 fn intersects_i64(a: &Geometry<i64>, b: &Geometry<i64>) -> bool {
     with_geom!(a, x => with_geom!(b, y => x.intersects(y)))
